@@ -1,10 +1,12 @@
-// C04 demo: an island that stands inside a hole which a horizontal join split off the outer polygon LATER is a top-level
-// polygon of the PolyTree64 (it lies inside its sibling; it should be the child of the hole).  The island's OutRec got an owner
-// at its local minimum, but AddLocalMaxPoly reset it to nullptr (no hot edge left of the closing vertex (22,38)); it is in no
-// split list, so RecursiveCheckOwners has nothing to search.  Key tree.nesting.no-live-owner-for-ring-in-split-off-hole.
-// Found by gen/splitmerge.py (VERIF_SEED=4); replay: /verif/triage/cov/C04-seed4-island-without-owner.replay.json
-// Build: g++ -std=c++17 -O1 -I/repo/CPP/Clipper2Lib/include /verif/triage/demos/C04-island-without-owner.cpp \
-//          /repo/CPP/Clipper2Lib/src/clipper.engine.cpp -o /tmp/c04-island-without-owner
+// C04 demo: an island stands in a hole of a polygon whose OutRec is recorded as OWNED BY the island's OutRec (the island's
+// ring was the first piece of that outline; later horizontal joins split the big polygon and its hole off it).  The search
+// through the island's own split list (repair 239d50c) reaches the hole, but CheckSplitOwner's IsValidOwner(outrec, split)
+// refuses it because the hole's owner chain leads back to the island: the island is a top-level polygon inside its sibling.
+// State before BuildTree64: OutRec 0 = the island (owner none, splits [12]), 12 point-less -> 8 = the outer polygon
+// (owner 0, splits [13]), 13 = the hole (owner 8).
+// Found by gen/splitmerge.py (VERIF_SEED=5 and 7).
+// Build: g++ -std=c++17 -O1 -I/repo/CPP/Clipper2Lib/include /verif/triage/demos/C04-container-owned-by-its-content.cpp \
+//          /repo/CPP/Clipper2Lib/src/clipper.engine.cpp -o /tmp/c04-container-owned
 // Only public API is used.  Returns 1 when the property fails.
 #include <cstdio>
 #include "clipper2/clipper.h"
@@ -44,18 +46,20 @@ static void Walk(const PolyPath64& n, int depth)
 
 int main()
 {
-  // seven rectangles with even coordinates; Union, EvenOdd
+  // axis-parallel polygons on the multiples of 4; Union, EvenOdd
   Paths64 subject = {
-    MakePath({ 22,46, 28,46, 28,36, 22,36 }), MakePath({ -4,34, 38,34, 38,36, -4,36 }), MakePath({ -2,38, 62,38, 62,36, -2,36 }),
-    MakePath({ 20,38, 24,38, 24,48, 20,48 }), MakePath({ 54,38, 60,38, 60,48, 54,48 }), MakePath({ -2,50, 34,50, 34,48, -2,48 }),
-    MakePath({ 34,50, 60,50, 60,48, 34,48 }) };
+    MakePath({ 72,-112, 92,-112, 92,-92, 88,-92, 88,-108, 76,-108, 76,-92, 72,-92 }),
+    MakePath({ -4,-92, 108,-92, 108,-88, -4,-88 }),
+    MakePath({ -8,-100, 28,-100, 28,-144, 36,-144, 36,-100, 92,-100, 92,-144, 96,-144, 96,-92, -8,-92 }),
+    MakePath({ 44,-144, 84,-144, 84,-108, 44,-108 }),
+    MakePath({ -4,-152, 96,-152, 96,-144, -4,-144 }) };
   Clipper64 c;
   c.AddSubject(subject);
   PolyTree64 tree; Paths64 open;
   bool ok = c.Execute(ClipType::Union, FillRule::EvenOdd, tree, open);
   printf("Union/EvenOdd: Execute -> %d, tree:\n", (int)ok);
   Walk(tree, 0);
-  printf("demanded: the block (28,38)(28,46)(24,46)(24,38) is the child of the hole (22,36)...(28,36) that surrounds it\n");
+  printf("demanded: the block (76,-108)(76,-100)(72,-100)(72,-108) is the child of the 22-vertex hole that surrounds it\n");
   printf("%s\n", bad ? "FAIL" : "PASS");
   return bad ? 1 : 0;
 }
